@@ -151,6 +151,90 @@ pub fn test_bytes(c: &BytesCase) -> Verdict {
     }
 }
 
+/// an atom written with a length prefix of a chosen width (minimal or overlong), optionally inside a pair
+#[derive(Serialize, Deserialize, Clone, Debug)]
+pub struct WidthCase {
+    pub len: u32,
+    pub width: u8,
+    pub fill: u8,
+    /// 0 bare, 1 left child, 2 right child of a pair with nil
+    pub wrap: u8,
+}
+
+pub fn width_bytes(c: &WidthCase) -> Option<Vec<u8>> {
+    let w = c.width as usize;
+    if !(1..=6).contains(&w) {
+        return None;
+    }
+    let bits = (7 - w) + 8 * (w - 1);
+    if (c.len as u64) >> bits != 0 {
+        return None;
+    }
+    let mut sb = (c.len as u64).to_be_bytes()[8 - w..].to_vec();
+    sb[0] |= (0xffu16 << (8 - w)) as u8;
+    let mut atom = sb;
+    atom.extend(std::iter::repeat_n(c.fill, c.len as usize));
+    Some(match c.wrap {
+        1 => [vec![0xff], atom, vec![0x80]].concat(),
+        2 => [vec![0xff, 0x80], atom].concat(),
+        _ => atom,
+    })
+}
+
+/// canonical exactly when the bytes are what the independent encoder produces for the decoded tree
+pub fn test_width(c: &WidthCase) -> Verdict {
+    let Some(b) = width_bytes(c) else { return Verdict::discard() };
+    let payload = vec![c.fill; c.len as usize];
+    let mut d = crate::dag::Dag::new();
+    let a = d.atom(&payload);
+    match c.wrap {
+        1 => {
+            let n = d.nil();
+            d.pair(a, n);
+        }
+        2 => {
+            let n = d.nil();
+            d.pair(n, a);
+        }
+        _ => {}
+    }
+    let canon = crate::model::refserde::encode_classic(&d, LIMIT).expect("encode");
+    let want_canonical = canon == b;
+    let got = match guard(|| is_canonical_serialization(&b)) {
+        Ok(g) => g,
+        Err(p) => return Verdict::fail(format!("is_canonical_serialization panicked: {p}")),
+    };
+    // the 6-byte prefix is rejected by every decoder; is_canonical must then say false as well
+    if got != want_canonical {
+        return Verdict::fail(format!(
+            "atom of {} bytes written with a {}-byte length prefix (wrap {}): is_canonical_serialization = {got}, but the canonical encoding of the tree {} the input (first bytes {})",
+            c.len,
+            c.width,
+            c.wrap,
+            if want_canonical { "equals" } else { "differs from" },
+            crate::util::hexs(&b[..b.len().min(12)])
+        ));
+    }
+    let v = test_bytes(&BytesCase { b });
+    if v.fail.is_some() {
+        return v;
+    }
+    Verdict::pass(c.len >= 1).label(if want_canonical { "width: minimal" } else { "width: overlong" }).label(format!("width{}", c.width))
+}
+
+fn gen_width(t: &mut Tape) -> WidthCase {
+    let len = match t.below(20) {
+        0 => *t.pick(&[0xffffu32, 0x10000, 0x10001, 0xfffff, 0x100000, 0x100001]),
+        1 => t.below(0x180000),
+        2 | 3 => *t.pick(&[0x1fffu32, 0x2000, 0x2001, 0x3fff, 0x4000]),
+        4 | 5 | 6 => *t.pick(&[0u32, 1, 2, 0x3e, 0x3f, 0x40, 0x41, 0x7f, 0x80, 0xff, 0x100]),
+        7 | 8 => t.below(0x3000),
+        _ => t.below(0x50),
+    };
+    let fill = *t.pick(&[0u8, 1, 0x7f, 0x80, 0xff, 0x41]);
+    WidthCase { len, width: 1 + t.below(6) as u8, fill, wrap: t.below(3) as u8 }
+}
+
 pub fn test_prefix(c: &PrefixCase) -> Verdict {
     let mut expect = Vec::new();
     let ok = encode_prefix(c.first, c.size, &mut expect);
@@ -264,7 +348,7 @@ const PREFIX_BOUNDS: [u64; 7] = [0, 1, 0x40, 0x2000, 0x10_0000, 0x800_0000, 0x4_
 pub fn run(r: &mut Runner) {
     r.rule = "part trees: generated DAGs (pool/list/spine/doubling shapes, atoms from the boundary-biased atom generator, every internal representation); \
         non-trivial = has a pair and a length-prefixed atom, distinct by case. part bytes: mutated/valid/random classic byte strings; non-trivial = decodes and judged canonical, longer than 1 byte. \
-        part prefix: length-prefix codec at/around every boundary and random sizes up to 2^34+; non-trivial = size >= 0x40. part big: whole atoms at the large boundaries."
+        part prefix: length-prefix codec at/around every boundary and random sizes up to 2^34+; non-trivial = size >= 0x40. part widths: single atoms (also as a child of a pair) of boundary-biased lengths up to 1.5 MiB written with each length-prefix width 1..6 that can hold the length, with the complete payload: is_canonical_serialization must be true exactly for the minimal form, and the decode/canonical/re-serialize relation must hold. part big: whole atoms at the large boundaries."
         .into();
     r.assumptions = vec![
         "whole atoms >= 4 GiB cannot exist in an Allocator; that range is covered at prefix level only (hook serde::verif)".into(),
@@ -302,6 +386,11 @@ pub fn run(r: &mut Runner) {
         },
         test_prefix,
     );
+    // atoms written with every prefix width that can hold their length (minimal and overlong forms, complete payload)
+    let n = r.n(30_000, 400_000);
+    r.run_part("widths", n, 8, gen_width, test_width);
+    r.require_label("width: overlong", 1000);
+    r.require_label("width: minimal", 1000);
     // whole atoms at the large boundaries
     let mut lens: Vec<u64> = vec![0x1fff, 0x2000, 0x2001, 0xfffff, 0x100000, 0x100001];
     if r.tier == Tier::Thorough {
